@@ -5,14 +5,42 @@ Local Open Scope Z_scope.
 
 (* ---- receiver helper -------------------------------------------------------------------- *)
 
-(* one receive operation of signal s with n items: accepted_s + refused_s move by n in total,
-   which of the two moves follows the downstream result, and NO other counter moves *)
-Theorem receiver_op_balance : forall s n err, s <> Profiles ->
-  lget (RecvAccepted s) (recv_end_op s n err) + lget (RecvRefused s) (recv_end_op s n err) = n /\
-  (err = false -> lget (RecvAccepted s) (recv_end_op s n err) = n /\ lget (RecvRefused s) (recv_end_op s n err) = 0) /\
-  (err = true -> lget (RecvAccepted s) (recv_end_op s n err) = 0 /\ lget (RecvRefused s) (recv_end_op s n err) = n) /\
-  (forall c, c <> RecvAccepted s -> c <> RecvRefused s -> lget c (recv_end_op s n err) = 0).
-Proof. exact recv_end_op_facts. Qed.
+(* one receive operation of signal s with n items, whether its span records (rc) or not:
+   accepted_s + refused_s move by n in total, which of the two moves follows the downstream
+   result, and NO other instrument moves *)
+Theorem receiver_op_balance : forall rc s n err, s <> Profiles ->
+  lget (RecvAccepted s) (recv_end_op_full rc s n err) + lget (RecvRefused s) (recv_end_op_full rc s n err) = n /\
+  (err = false -> lget (RecvAccepted s) (recv_end_op_full rc s n err) = n /\ lget (RecvRefused s) (recv_end_op_full rc s n err) = 0) /\
+  (err = true -> lget (RecvAccepted s) (recv_end_op_full rc s n err) = 0 /\ lget (RecvRefused s) (recv_end_op_full rc s n err) = n) /\
+  (forall c, c <> RecvAccepted s -> c <> RecvRefused s -> is_span_counter c = false -> lget c (recv_end_op_full rc s n err) = 0).
+Proof. exact recv_end_op_full_facts. Qed.
+
+(* THE COUNTERS DO NOT DEPEND ON TRACING: whether the span of an operation records (SDK tracer and
+   sampled) or not (no-op tracer provider = internal traces disabled, or a sampler that drops the
+   span) changes no instrument - for receiver histories that differ only in which spans record,
+   for scraper controllers, and for the exporter's obs-report sender *)
+Theorem counters_independent_of_tracing :
+  (forall ops ops' c, is_span_counter c = false -> map ro_core ops = map ro_core ops' ->
+     lget c (recv_run ops) = lget c (recv_run ops')) /\
+  (forall rc rc' k ops c, is_span_counter c = false -> lget c (scr_run rc k ops) = lget c (scr_run rc' k ops)) /\
+  (forall s n r c, is_span_counter c = false -> lget c (obs_end_op true s n r) = lget c (obs_end_op false s n r)).
+Proof. exact tracing_irrelevant_l. Qed.
+
+(* when the spans record, their item attributes add up to exactly what the counters say; when
+   they do not, no attribute is recorded *)
+Theorem receiver_span_attributes_match : forall ops s, s <> Profiles ->
+  ((forall o, In o ops -> ro_rec o = true) ->
+     lget (SpanAcc s) (recv_run ops) = lget (RecvAccepted s) (recv_run ops) /\
+     lget (SpanRef s) (recv_run ops) = lget (RecvRefused s) (recv_run ops)) /\
+  ((forall o, In o ops -> ro_rec o = false) ->
+     lget (SpanAcc s) (recv_run ops) = 0 /\ lget (SpanRef s) (recv_run ops) = 0).
+Proof. exact recv_run_span. Qed.
+
+Theorem exporter_span_attributes_match : forall s n r, s <> Profiles ->
+  lget (SpanSent s) (obs_end_op true s n r) = lget (ExpSent s) (obs_end_op true s n r) /\
+  lget (SpanFailed s) (obs_end_op true s n r) = lget (ExpFailed s) (obs_end_op true s n r) /\
+  lget (SpanSent s) (obs_end_op false s n r) = 0 /\ lget (SpanFailed s) (obs_end_op false s n r) = 0.
+Proof. exact obs_end_op_span. Qed.
 
 (* every history of receive operations (all signals mixed): per signal, accepted + refused is the
    number of items offered under that signal, accepted those of the operations without error,
@@ -35,33 +63,33 @@ Qed.
 (* metrics controller, every history of scrapes: accepted + refused metric points = the points
    offered to the consumer, accepted = those of the successful consume calls, and no receiver
    counter of another signal moves *)
-Theorem receiver_balance_scraper_metrics : forall ops,
-  lget (RecvAccepted Metrics) (scr_run KMetrics ops) + lget (RecvRefused Metrics) (scr_run KMetrics ops) = scr_total ops /\
-  lget (RecvAccepted Metrics) (scr_run KMetrics ops) = scr_total_ok ops /\
-  (forall s, s <> Metrics -> lget (RecvAccepted s) (scr_run KMetrics ops) = 0 /\ lget (RecvRefused s) (scr_run KMetrics ops) = 0).
-Proof. exact (scr_run_metric_points KMetrics). Qed.
+Theorem receiver_balance_scraper_metrics : forall rc ops,
+  lget (RecvAccepted Metrics) (scr_run rc KMetrics ops) + lget (RecvRefused Metrics) (scr_run rc KMetrics ops) = scr_total ops /\
+  lget (RecvAccepted Metrics) (scr_run rc KMetrics ops) = scr_total_ok ops /\
+  (forall s, s <> Metrics -> lget (RecvAccepted s) (scr_run rc KMetrics ops) = 0 /\ lget (RecvRefused s) (scr_run rc KMetrics ops) = 0).
+Proof. exact (fun rc => scr_run_metric_points rc KMetrics). Qed.
 
 (* the full statement ("under the counters of the operation's own signal") is FALSE of the logs
    controller (finding S5): 14 log records scraped and accepted, accepted_log_records +
    refused_log_records = 0, accepted_metric_points = 14 *)
 Theorem receiver_balance_scraper_refuted : exists ops,
-  lget (RecvAccepted Logs) (scr_run KLogs ops) + lget (RecvRefused Logs) (scr_run KLogs ops) <> scr_total ops /\
-  scr_total ops = 14 /\ lget (RecvAccepted Metrics) (scr_run KLogs ops) = 14.
+  lget (RecvAccepted Logs) (scr_run true KLogs ops) + lget (RecvRefused Logs) (scr_run true KLogs ops) <> scr_total ops /\
+  scr_total ops = 14 /\ lget (RecvAccepted Metrics) (scr_run true KLogs ops) = 14.
 Proof. exact s5_refuted_l. Qed.
 
 (* what the logs controller does instead, for every history: the log records are counted under
    the METRIC-POINT counters, the log-record counters never move *)
-Theorem scraper_logs_counted_as_metric_points : forall ops,
-  lget (RecvAccepted Metrics) (scr_run KLogs ops) + lget (RecvRefused Metrics) (scr_run KLogs ops) = scr_total ops /\
-  lget (RecvAccepted Metrics) (scr_run KLogs ops) = scr_total_ok ops /\
-  (forall s, s <> Metrics -> lget (RecvAccepted s) (scr_run KLogs ops) = 0 /\ lget (RecvRefused s) (scr_run KLogs ops) = 0).
-Proof. exact (scr_run_metric_points KLogs). Qed.
+Theorem scraper_logs_counted_as_metric_points : forall rc ops,
+  lget (RecvAccepted Metrics) (scr_run rc KLogs ops) + lget (RecvRefused Metrics) (scr_run rc KLogs ops) = scr_total ops /\
+  lget (RecvAccepted Metrics) (scr_run rc KLogs ops) = scr_total_ok ops /\
+  (forall s, s <> Metrics -> lget (RecvAccepted s) (scr_run rc KLogs ops) = 0 /\ lget (RecvRefused s) (scr_run rc KLogs ops) = 0).
+Proof. exact (fun rc => scr_run_metric_points rc KLogs). Qed.
 
 (* the per-scraper counters: scraped = items of the data returned without a fatal error (NB for
    metrics the wrapper counts METRICS, not data points), errored = the failed count of partial errors *)
-Theorem scraper_scraped_errored : forall k ops,
-  lget (ScrScraped (sig_of_kind k)) (scr_run k ops) = sumZ (map (fun o => sumZ (map (scr_scraped_of k) (so_res o))) ops) /\
-  lget (ScrErrored (sig_of_kind k)) (scr_run k ops) = sumZ (map (fun o => sumZ (map scr_errored_of (so_res o))) ops).
+Theorem scraper_scraped_errored : forall rc k ops,
+  lget (ScrScraped (sig_of_kind k)) (scr_run rc k ops) = sumZ (map (fun o => sumZ (map (scr_scraped_of k) (so_res o))) ops) /\
+  lget (ScrErrored (sig_of_kind k)) (scr_run rc k ops) = sumZ (map (fun o => sumZ (map scr_errored_of (so_res o))) ops).
 Proof. exact scr_run_scraped. Qed.
 
 (* ---- processor helper --------------------------------------------------------------------- *)
@@ -179,6 +207,9 @@ Qed.
 
 Print Assumptions receiver_op_balance.
 Print Assumptions receiver_balance.
+Print Assumptions counters_independent_of_tracing.
+Print Assumptions receiver_span_attributes_match.
+Print Assumptions exporter_span_attributes_match.
 Print Assumptions receiver_balance_scraper_metrics.
 Print Assumptions receiver_balance_scraper_refuted.
 Print Assumptions scraper_logs_counted_as_metric_points.
